@@ -12,7 +12,7 @@ import (
 func init() {
 	register(
 		&Rule{ID: "R14.1", Props: []string{"C14"}, Floor: 2, Title: "state import replaces: both state managers clean the existing state successfully before importing", Run: r141},
-		&Rule{ID: "R14.2", Props: []string{"C14"}, Floor: 3, Title: "export and import use the same JSON record type, one fresh record per entry", Run: r142},
+		&Rule{ID: "R14.2", Props: []string{"C14", "C08", "C01"}, Floor: 3, Title: "export and import use the same JSON record type, one fresh record per entry", Run: r142},
 		&Rule{ID: "R14.3", Props: []string{"C14"}, Floor: 5, Title: "snapshot save and offline read use the same codec and namespace as the running consensus; the snapshot sink is cancelled on failure and closed on success", Run: r143},
 		&Rule{ID: "R14.4", Props: []string{"C14"}, Floor: 1, Title: "an unparsable peerstore line is never used (value paired with a tested error is not used on the error path)", Run: r144},
 		&Rule{ID: "R14.5", Props: []string{"C14"}, Floor: 3, Title: "the peerstore file is truncated on save, written in slice order, and peers are saved sorted by priority", Run: r145},
